@@ -635,6 +635,22 @@ def r15(db, ctx):
                     continue
             n += 1
             ctx.ok('R1.5', f, f'{op}<{elem}>: arm {cons} -> {c.rsplit("::", 2)[-2]}::{meth}')
+        # completeness: the accelerated arms confirmed by reading dispatch.rs — a backend the dispatcher can select must not fall through to the
+        # generic arm for an operation it implements (seed C08-9: a narrowed cfg compiled the AVX2 arm of the 8-bit scoring out on x86-64,
+        # leaving the non-saturating generic kernel — the recorded finding D7 — as what the scanner runs)
+        WANT = {('encode_into', 'f32'): {'Avx2'}, ('score_rows_into', 'f32'): {'Avx2', 'Sse2'}, ('score_rows_into', 'u8'): {'Avx2'}, ('stripe_into', 'f32'): {'Avx2'},
+                ('argmax', 'f32'): {'Avx2', 'Sse2'}, ('max', 'f32'): {'Avx2'}, ('argmax', 'u8'): {'Avx2'}, ('max', 'u8'): {'Avx2'}}
+        have = set()
+        for bi, t in f.calls():
+            c = f.callee_short(t) or ''
+            if c.startswith('lightmotif::pli::platform::'):
+                for r in G.relations(f, R, bi):
+                    if r[0] == 'switch' and 'backend' in X.canon(r[1]) and r[2][0] == 'eq':
+                        have.add(vnames.get(r[2][1], '?'))
+        missing = {v for v in WANT.get((op, elem), set()) if v in vnames.values()} - have
+        for v in sorted(missing):
+            ctx.fail('R1.5', f, f'{op}<{elem}>: arm {v} missing', f'the dispatcher has no arm for Dispatch::{v} in {op}<{elem}> on this target although {v} implements it: '
+                     f'a pipeline that selected {v} runs the generic implementation of this operation')
         if arms == 0:
             # a target without an accelerated arm for this operation: the body must be the unconditional generic fallback
             ws = [(bi, t) for bi, t in f.calls() if (f.callee_short(t) or '').startswith('lightmotif::pli::') and not (f.callee_short(t) or '').endswith('as_ref')]
